@@ -96,7 +96,7 @@ class VCGen(SpecMixin, CallMixin, StmtMixin, ExprMixin, Engine):
         st.old = entry
         reqs = []
         for r in c.requires:
-            reqs.append(self.spb(r, st))
+            reqs.append(self.spb(r, st, -1))
         st = st.assume(*reqs)
         entry.pc = st.pc
         st.old = entry
@@ -134,7 +134,7 @@ class VCGen(SpecMixin, CallMixin, StmtMixin, ExprMixin, Engine):
         if c.ret is not None and c.ret != NONE:
             cv = self.coerce(val, c.ret)
             if cv is None and c.ret == VAL:
-                cv = self.to_val_deep(st, val)
+                st, cv = self.to_val_deep(st, val)
             if cv is None:
                 if val.ty == VAL:
                     cv = self.coerce_store(st, val, c.ret, 'result', fi.node)
@@ -145,10 +145,10 @@ class VCGen(SpecMixin, CallMixin, StmtMixin, ExprMixin, Engine):
             val = cv
         fs = self.final_env(st, entry, val)
         for i, e in enumerate(c.ensures):
-            goal = self.spb(e, fs)
+            goal = self.spb(e, fs, +1)
             self.add_vc('post[%d]' % i, 'post', fs, goal, fi.node, note=e)
         for i, e in enumerate(c.must_fail):
-            goal = self.spb(e, fs)
+            goal = self.spb(e, fs, +1)
             self.add_vc('mustfail[%d]' % i, 'mustfail', fs, goal, fi.node, expect='refutable', note=e)
         self.check_frame(c.modifies, fs, entry, fi, 'frame')
 
@@ -173,7 +173,7 @@ class VCGen(SpecMixin, CallMixin, StmtMixin, ExprMixin, Engine):
         if 'errno' in exc.fields:
             fs.env['errno'] = exc.fields['errno']
         for i, e in enumerate([clause] if isinstance(clause, str) else clause):
-            goal = self.spb(e, fs)
+            goal = self.spb(e, fs, +1)
             self.add_vc('raises[%s][%d]@%s' % (best, i, exc.origin), 'raises', fs, goal, fi.node, note=e)
         mods = c.exc_modifies if c.exc_modifies is not None else c.modifies
         self.check_frame(mods, fs, entry, fi, 'frame-exc[%s]' % exc.cls)
@@ -226,9 +226,9 @@ class VCGen(SpecMixin, CallMixin, StmtMixin, ExprMixin, Engine):
         for n, ty in lem.vars.items():
             st.env[n] = named(ty, 'lv.' + n)
         st.old = st
-        hyps = [self.spb(h, st) for h in lem.hyps]
+        hyps = [self.spb(h, st, -1) for h in lem.hyps]
         st = st.assume(*hyps)
-        goal = self.spb(lem.goal, st)
+        goal = self.spb(lem.goal, st, +1)
 
         class _F(object):
             qual = 'lemma:' + lem.name
